@@ -636,14 +636,16 @@ def formatnum_fn(
     else:
         sep = ctx.LOCALIZATION_DATA["grouping_separator"]
 
-    if sep in arg0:
-        # separator only allowed when R)eversing
-        return arg0
-
     decimal_point = ctx.LOCALIZATION_DATA["decimal_point"]
     # XXX implement support for non-english locales for digits
     orig = arg0.split(".")  # remember, raw input strungs "." always decimal
     first = orig[0]
+
+    if sep in first:
+        # separator only allowed when R)eversing.  Only the integer part is
+        # checked: the "." of the raw input is the decimal point even in
+        # locales that use "." as their grouping separator.
+        return arg0
 
     parts: list[str] = []
     # Tuple with ints, usually (3, 0).
@@ -696,11 +698,13 @@ def _formatnum_reverse(ctx: "Wtp", arg0: str) -> str:
 
     # Kludge for French; the locale data has non-breaking spaces as the
     # separators, but it seems clear we must also allow normal spaces
+    # Note: separators must be removed before the decimal point is converted,
+    # otherwise locales whose separator is "." lose the new decimal point too
     if sep == "\xa0":  # non-breaking space
-        return arg0.replace(decimal, ".").replace(sep, "").replace(" ", "")
+        return arg0.replace(sep, "").replace(" ", "").replace(decimal, ".")
 
     # Currently only doing the minimum by removing thousand separators
-    return arg0.replace(decimal, ".").replace(sep, "")
+    return arg0.replace(sep, "").replace(decimal, ".")
 
 
 def dateformat_fn(
